@@ -50,6 +50,10 @@ type c15dev struct {
 	written   []byte // what the device put in the buffer
 	bufSize   int
 	setLength *uint64 // when set: the device overwrites the request's Length field with it
+	// the device completes the request without storing some header fields (they stay as the library sent them)
+	keepOutLen, keepStatus bool
+	sentOutLen             uint32
+	sentStatus             uint64
 }
 
 func (d *c15dev) Open(string) error { return nil }
@@ -117,8 +121,13 @@ func (d *c15dev) Ioctl(cmd uintptr, arg any) (uintptr, error) {
 				copy(h.Data[:], d.quote)
 			}
 		}
-		h.Status = d.status
-		h.OutLen = d.outLen
+		d.sentOutLen, d.sentStatus = h.OutLen, h.Status
+		if !d.keepStatus {
+			h.Status = d.status
+		}
+		if !d.keepOutLen {
+			h.OutLen = d.outLen
+		}
 		if d.setLength != nil {
 			a.Length = *d.setLength
 		}
@@ -344,6 +353,45 @@ func runC15(r *mc.Run) {
 		}
 	}
 
+	// devices that complete both requests with result 0 but do not store OutLen and / or Status, with the buffer left
+	// as it came in (the TD report), zeroed, or holding a quote: what was not written is not device data — whatever
+	// comes back must not be the staged TD report, and a success must be the first OutLen bytes the DEVICE wrote
+	for _, kl := range []bool{true, false} {
+		for _, ks := range []bool{true, false} {
+			for _, content := range []int{2, 1, 0} {
+				for _, st := range []uint64{0, 0x8000000000000000} {
+					if !kl && !ks {
+						continue
+					}
+					id := fmt.Sprintf("device/fields-not-stored/outlen-kept=%v,status-kept=%v,content%d,device-status=%#x", kl, ks, content, st)
+					if !r.Want(id) {
+						continue
+					}
+					d := &c15dev{repBytes: repA, outLen: uint32(len(quote)), status: st, content: content, quote: quote, keepOutLen: kl, keepStatus: ks}
+					var got []byte
+					var err error
+					func() { defer world.Recover(&err); got, err = client.GetRawQuote(d, rds[1]) }()
+					out := "error"
+					switch {
+					case world.IsPanic(err):
+						r.Violate("device:fields-not-stored:panic:"+crashSite(err), id, "GetRawQuote crashes: "+errStr(err), nil)
+						out = "panic"
+					case err == nil && kl && len(got) >= 64 && bytes.Equal(got[:64], repA[:64]):
+						// (when the device itself stores a fitting OutLen over an untouched buffer the library cannot tell: that
+						// case is part of the main product above and returns the buffer bytes)
+						r.Violate("device:fields-not-stored:td-report-in-place-of-a-quote", id, fmt.Sprintf("the TD report staged for the request comes back as the quote (%d bytes, no error; the library had put OutLen=%d in the header it sent)", len(got), d.sentOutLen), nil)
+						out = "td-report!"
+					case err == nil && kl && d.sentOutLen == 0:
+						r.Violate("device:fields-not-stored:zero-outlen-accepted", id, "OutLen was sent as 0 and never stored by the device, yet the call succeeds", nil)
+						out = "accepted!"
+					case err == nil:
+						out = fmt.Sprintf("ok(%d)", len(got))
+					}
+					r.Eval(id, true, "fields-not-stored:"+out)
+				}
+			}
+		}
+	}
 	// GetQuote == QuoteToProto(GetRawQuote) on the device path
 	for _, ol := range []uint32{uint32(len(quote)), uint32(len(quote) - 1), 0, uint32(bufSize)} {
 		id := fmt.Sprintf("device/getquote/outlen=%d", ol)
